@@ -143,7 +143,8 @@ def to_c(ob, wd, ll, tag):
            '--cut', ','.join(cname(c) for c in cuts),
            '--forbid', ','.join(cname(c) for c in resolve_names(ll, ob.get('forbid'))),
            '--redirect', ','.join('%s=%s' % kv for kv in redirect.items()),
-           '--models', ','.join(models)]
+           '--models', ','.join(models),
+           '--fnptr-defs', ob.get('fnptr_defs', '')]
     rc, o, t, _ = run(cmd, timeout=600, stdout_path=cfile)
     if rc != 0:
         raise Inconclusive('ir2c failed: ' + o[-3000:])
